@@ -10,26 +10,20 @@ MC = "model_checking"
 EX = "exploration"
 
 # id -> (category, technique, text, note, design_ref)
-CHECKS = {
- "C09": (MC, "TLA+ spec BinaryMerkle (RFC 6962 oracle + MMR design) model-checked by TLC; TLC-enumerated histories replayed into the real trees; recorded traces of 3 implementations validated by TLC against the spec",
-         "TLC checks RootIsMTH/PeaksShape/StoreHoldsPeaks on all histories <= MaxLen; every history is replayed into binary::MerkleTree, in_memory::MerkleTree and MerkleRootCalculator comparing roots with the RFC recursion; a dense trace (every count 1..N, random leaf lengths incl. empty, one-shot helpers and ephemeral_merkle_root at boundary counts) is validated event by event by BinaryMerkle_Trace.",
-         "Trusts java MessageDigest SHA-256 inside TLC and the harness plumbing (no expected values in the harness). Bounded: MaxLen 5/6 histories exhaustively, counts up to 260/1200 in traces.", "4/C09"),
- "C10": (MC, "TLA+ RFC 6962 audit-path verifier (VerifyRef/RootFromPath) as oracle in a TLC trace specification; real verifier verdicts on structured proof mutations validated against it; ProofsVerify model-checked",
-         "For every (n, i) in the driver's grid the real proof and 20+ mutations (index/count perturbations incl. u64 extremes, dropped/duplicated/reversed/appended elements, other leaf's proof or data, flipped root) are fed to binary::verify; TLC recomputes the RFC verification with exact BigNat index arithmetic and requires verdict equality; real proofs must equal the RFC audit path.",
-         "Same trusted base as C09. Sampled indices for n > 17.", "4/C10"),
- "C11": (MC, "TLC enumerates ALL histories of push/reset/load/prove up to a bound from the BinaryMerkle spec and each is replayed into the real storage-backed and in-memory trees; random longer histories validated as traces",
-         "Exhaustive small-scope enumeration (17 640 histories at MaxLen 5, ~150k at 6) bound to the code by replay with root, count, proof definedness and proof bytes compared after every step; plus seeded histories of 5-120 operations validated by BinaryMerkle_Trace.",
-         "Load is exercised at k <= current leaves of the source store (the reload point of the property); the store is forked for the reload.", "4/C11"),
- "C12": (MC, "TLA+ compact-sparse-Merkle oracle (SparseMerkleRef!RefRoot); TLC enumerates ALL insert/overwrite/delete histories over clustered model keys x 4 embeddings into 256-bit keys, replayed into the real trees; seeded long traces validated by TLC",
-         "Every history up to MaxLen 3/4 over 4 model keys under 4 embeddings (first-bits / 253-bit shared prefix / bits 0,128,255 / all-zero,all-one,last-bit neighbours) is replayed into storage-backed and in-memory trees and the final root compared with RefRoot of the final map, also for from_set / root_from_set / nodes_from_set; traces over a 20-key adversarial pool are validated event by event (root = RefRoot(map) after every op).",
-         "Trusts SHA-256 in TLC and the harness plumbing. Histories bounded (MaxLen), trace keys from a seeded adversarial pool.", "4/C12"),
- "C13": (MC, "TLC trace validation with the spec's node store: storage deltas of every operation applied to the model store; invariants Closed(store, root) and Leaves(store, root) = Entries(map) evaluated after every event; reloads (intact / root removed / deeper node removed / empty root) at random points of the history",
-         "The harness's observable store logs every node written/removed; SparseMerkle_Trace rebuilds the store and checks after EVERY operation that everything reachable from the root is persisted, hashes to its key and denotes exactly the map; reloaded trees continue the remaining history next to the original and must give oracle roots and proofs; a load with the root node missing must fail; with a deeper node missing every later operation must fail or agree with the oracle.",
-         "Reload points are sampled (seeded), not exhaustive; the in-memory wrapper's store is not observable (root-only checks there).", "4/C13"),
- "C14": (MC, "TLC model-checks soundness/completeness of the compact-SMT proof scheme (ProofScheme) on every map over clustered model keys with real SHA-256; oracle proofs for every key of every history replayed against generate_proof; real verifier verdicts on ~20 structured mutations per proof validated against the reference verifier in TLC",
-         "Proof kind = inclusion iff present, proof bytes equal the oracle's unique proof, inclusion verifies only with the stored value, exclusion only for absent keys, leaf-claims-key / placeholder<->leaf / other key / altered, reordered, truncated, padded-to-257 proof sets get exactly the reference verdict.",
-         "Mutations are a fixed structured family plus seeded bit flips.", "4/C14"),
-}
+def load_checks():
+    """Each module in /verif/checks declares PROPERTIES = [...] and MANIFEST = {pid: dict(category, technique, text, note, design_ref)}."""
+    import importlib, sys, glob
+    sys.path.insert(0, os.path.join(ROOT, "pylib"))
+    sys.path.insert(0, os.path.join(ROOT, "checks"))
+    out = {}
+    for f in sorted(glob.glob(os.path.join(ROOT, "checks", "*.py"))):
+        m = importlib.import_module(os.path.basename(f)[:-3])
+        for pid, d in getattr(m, "MANIFEST", {}).items():
+            out[pid] = (d["category"], d["technique"], d["text"], d["note"], d["design_ref"])
+    return out
+
+
+CHECKS = load_checks()
 
 NOT_APPLICABLE = {
 }
